@@ -663,4 +663,15 @@ def goodGroups3 : Nat → List (List Cmd) → Bool
 /-- the third fragment: every time group is a `GoodGroup3` -/
 def Tame3 (pr : Parsed) : Bool := goodGroups3 pr.npop (cmdGroups pr)
 
+/-! ## time groups taken from different fragments -/
+
+/-- every time group is a `GoodGroup12` or a `GoodGroup3` (the choice may differ from group to group);
+`n` populations exist before the first group -/
+def goodGroups13 : Nat → List (List Cmd) → Bool
+  | _, [] => true
+  | n, g :: rest => (GoodGroup12 n g || GoodGroup3 n g) && goodGroups13 (n + (g.filter isSplitC).length) rest
+
+/-- the fragment of the mixed theorem `fromMs_sem13`; contains `Tame''` (hence `Tame'`) and `Tame3` -/
+def Tame13 (pr : Parsed) : Bool := goodGroups13 pr.npop (cmdGroups pr)
+
 end Demes.Spec.C08
